@@ -589,6 +589,79 @@ func checkC15(e *Engine, r *Report) {
 						}, nil)
 				}
 			}
+			// the producers of the source channel: the agent's asynchronous getters hand out a channel and must close it
+			// on every exit of their goroutine — the cache's fetch goroutine blocks on it, and a reader holding the
+			// resource manager's lock blocks on that goroutine
+			for _, name := range []string{"Agent.GoGetPodResources", "Agent.GoListPodResources"} {
+				prod := e.Fn(pkgAgent, name)
+				if prod == nil || prod.Blocks == nil {
+					r.Undecided("R8:source-channel-closed@"+name, "R8 publish-before-spawn", "the asynchronous getter exists", "-", nil, "not found")
+					continue
+				}
+				var chans []*ssa.MakeChan
+				AllInstrs(prod, func(in ssa.Instruction) {
+					if mc, ok := in.(*ssa.MakeChan); ok {
+						chans = append(chans, mc)
+					}
+				})
+				var gos []*ssa.Function
+				AllInstrs(prod, func(in ssa.Instruction) {
+					if g, ok := in.(*ssa.Go); ok {
+						gos = append(gos, e.Callees(g)...)
+					}
+				})
+				if len(chans) != 1 || len(gos) == 0 {
+					r.Undecided("R8:source-channel-closed@"+name, "R8 publish-before-spawn", "the getter makes one channel and spawns its producer", e.Pos(prod.Pos()), prod,
+						fmt.Sprintf("%d channels, %d goroutines", len(chans), len(gos)))
+					continue
+				}
+				for _, g := range gos {
+					g := g
+					closesIt := func(in ssa.Instruction) bool {
+						ci, ok := in.(ssa.CallInstruction)
+						if !ok {
+							return false
+						}
+						b, ok := ci.Common().Value.(*ssa.Builtin)
+						if !ok || b.Name() != "close" {
+							return false
+						}
+						// the closed channel is the captured one (a free variable bound to the MakeChan, possibly through a cell)
+						a := unspill(ci.Common().Args[0])
+						if u, ok := a.(*ssa.UnOp); ok && u.Op == token.MUL {
+							a = u.X
+						}
+						fv, ok := a.(*ssa.FreeVar)
+						if !ok {
+							return false
+						}
+						for _, site := range *g.Referrers() {
+							mk, ok := site.(*ssa.MakeClosure)
+							if !ok {
+								continue
+							}
+							for i, b := range mk.Bindings {
+								if g.FreeVars[i] != fv {
+									continue
+								}
+								if b == ssa.Value(chans[0]) {
+									return true
+								}
+								if al, ok := b.(*ssa.Alloc); ok {
+									for _, st := range cellStores(al) {
+										if st.Val == ssa.Value(chans[0]) {
+											return true
+										}
+									}
+								}
+							}
+						}
+						return false
+					}
+					r.MustPass("R8:source-channel-closed@"+name, "R8 publish-before-spawn", name+": the goroutine that produces the result closes the channel handed to the consumer on every exit, also when the query fails (otherwise the cache's fetch goroutine, and every reader waiting for it under the lock, blocks forever)",
+						g, nil, nil, closesIt, nil)
+				}
+			}
 			// readers: with waitResCh != nil the load of PodResources is preceded by a receive
 			assumeWait := func(cond ssa.Value) (bool, bool) {
 				b, ok := cond.(*ssa.BinOp)
